@@ -1025,6 +1025,19 @@ std::string sqf::parser::preprocessor::impl_default::instance::parse_file(::sqf:
     sstream << "#line 0 \"" << fileinfo.pathinf.physical << "\"\n";
     bool was_new_line = true;
     bool is_in_string = false;
+    // Writes one character of plain text. A newline is preceded by the newlines that line
+    // continuations have swallowed since the last one, so that later lines keep their numbers.
+    auto put = [&](char ch)
+    {
+        if (ch == '\n')
+        {
+            for (; fileinfo.swallowed_newlines > 0; fileinfo.swallowed_newlines--)
+            {
+                sstream << '\n';
+            }
+        }
+        sstream << ch;
+    };
     while ((c = fileinfo.next()) != '\0')
     {
         if (is_in_string)
@@ -1035,6 +1048,8 @@ std::string sqf::parser::preprocessor::impl_default::instance::parse_file(::sqf:
             }
             if (current_file_scope().conditions.empty() || current_file_scope().conditions.back().allow_write)
                 sstream << c;
+            else if (c == '\n')
+                sstream << c; // inactive sections contribute their newlines, inside strings too
             continue;
         }
         switch (c)
@@ -1078,6 +1093,11 @@ std::string sqf::parser::preprocessor::impl_default::instance::parse_file(::sqf:
                     {
                         return res;
                     }
+                    // a directive continued over k lines is answered by k newlines (before an include: its '#line' resyncs anyway)
+                    for (; fileinfo.swallowed_newlines > 0; fileinfo.swallowed_newlines--)
+                    {
+                        sstream << '\n';
+                    }
                     sstream << res;
                     break;
                 }
@@ -1107,17 +1127,18 @@ std::string sqf::parser::preprocessor::impl_default::instance::parse_file(::sqf:
                         }
                         else
                         {
-                            sstream << word << c;
+                            sstream << word;
+                            put(c);
                         }
                     }
                     else
                     {
-                        sstream << c;
+                        put(c);
                     }
                 }
                 else if (c == '\n')
                 {
-                    sstream << c;
+                    put(c);
                 }
             } break;
             case 'a': case 'b': case 'c': case 'd': case 'e':
